@@ -354,4 +354,54 @@ theorem flow_vector_inout (slices : List Buf) (len : Nat) (vs : List (List Nat))
 example : flowArr Gen.c_vector_inout_buf_string false false [97, 32, 32, 32] 2 2 (.vecInout [[], [97, 97, 97]])
     = .ok ⟨none, some [[97], []], [32, 32, 97, 97], 0, false⟩ := by decide
 
+/-! ## ShroudCopyStringAndFree: copy, then release -/
+
+/-- the regenerated helper body fetches, clamps, copies and only then releases: for every input
+    it behaves as the data part `copyString` and calls the destructor exactly once, whether or not
+    the wrapper owns the storage -/
+theorem copyString_order (cxx : Option Buf) (owned : Bool) (elemLen : Nat) (cvar : Buf) (cvarLen : Nat) :
+    copyStringRun Gen.copyStringSteps cxx owned elemLen cvar cvarLen
+      = (copyString cxx elemLen cvar cvarLen).map fun d => (d, 1) := by
+  simp only [Gen.copyStringSteps, copyStringRun, csRun, csStep, copyString, Res.ok_bind]
+  by_cases hn : (if elemLen < cvarLen then elemLen else cvarLen) > 0
+  · cases cxx with
+    | none => simp [hn]
+    | some b =>
+      cases h : strncpy cvar b 0 (if elemLen < cvarLen then elemLen else cvarLen) <;>
+        simp [hn, h, csRun, csStep]
+  · simp [hn, csRun, csStep]
+
+/-- a `std::string` returned by value (owned by the capsule, no NUL inside) arrives complete in the
+    allocatable result and is released once -/
+theorem allocatable_owned_string (s : List Nat) (h0 : ∀ c ∈ s, c ≠ NUL) :
+    copyStringRun Gen.copyStringSteps (strToArray s).1 true (strToArray s).2
+        (List.replicate (strToArray s).2 UNINIT) (strToArray s).2 = .ok (s, 1) := by
+  have := allocatable_string_result_partial s h0
+  simp only [allocatableResult] at this
+  rw [copyString_order, this]; rfl
+
+example : copyStringRun Gen.copyStringSteps (some [97, 98, 0]) true 2 [120, 120] 2 = .ok ([97, 98], 1) := by decide
+
+/-- witness that the order matters: with the release moved before the copy, every non-empty
+    result the wrapper owns is read after it was freed ... -/
+theorem release_before_copy_uaf (b cvar : Buf) (elemLen cvarLen : Nat) (h : 0 < elemLen) (h' : 0 < cvarLen) :
+    copyStringRun [.fetchPtr, .initN, .clampN, .release, .copy] (some b) true elemLen cvar cvarLen = .oob := by
+  have hn : (if elemLen < cvarLen then elemLen else cvarLen) > 0 := by split <;> omega
+  simp [copyStringRun, csRun, csStep, hn]
+
+/-- ... while library-owned results (destructor index 0) do not notice -/
+theorem release_before_copy_unowned (cxx : Option Buf) (cvar : Buf) (elemLen cvarLen : Nat) :
+    copyStringRun [.fetchPtr, .initN, .clampN, .release, .copy] cxx false elemLen cvar cvarLen
+      = copyStringRun Gen.copyStringSteps cxx false elemLen cvar cvarLen := by
+  simp only [Gen.copyStringSteps, copyStringRun, csRun, csStep, Res.ok_bind]
+  by_cases hn : (if elemLen < cvarLen then elemLen else cvarLen) > 0
+  · cases cxx with
+    | none => simp [hn]
+    | some b =>
+      cases h : strncpy cvar b 0 (if elemLen < cvarLen then elemLen else cvarLen) <;>
+        simp [hn, h, csRun, csStep]
+  · simp [hn, csRun, csStep]
+
+example : copyStringRun [.fetchPtr, .initN, .clampN, .release, .copy] (some [97, 0]) true 1 [120] 1 = .oob := by decide
+
 end Shroud.StrStmts
